@@ -189,11 +189,14 @@ pub struct JsonVariant {
     pub meta_types: u8,
     /// emit `isOneOf` on input objects
     pub is_one_of: bool,
+    /// a field that is NOT deprecated still carries a `deprecationReason` string (a server that kept the
+    /// text after un-deprecating, or that fills in a default reason): `isDeprecated: false` decides
+    pub leftover_reason: bool,
 }
 
 impl JsonVariant {
     pub fn plain() -> Self {
-        JsonVariant { data_wrapped: false, builtin_scalars: 0, meta_types: 0, is_one_of: true }
+        JsonVariant { data_wrapped: false, builtin_scalars: 0, meta_types: 0, is_one_of: true, leftover_reason: false }
     }
 }
 
@@ -321,7 +324,7 @@ impl SchemaDoc {
                             "name": f.name, "description": null, "args": [],
                             "type": f.ty.typeref(&kind_of),
                             "isDeprecated": f.deprecated.is_some(),
-                            "deprecationReason": match &f.deprecated { Some(Some(r)) => Value::String(r.clone()), _ => Value::Null },
+                            "deprecationReason": match &f.deprecated { Some(Some(r)) => Value::String(r.clone()), None if var.leftover_reason => Value::String("No longer supported".into()), _ => Value::Null },
                         })
                     })
                     .collect(),
